@@ -193,6 +193,53 @@ class Loops:
             return a[1]
 
         k_atom = for_ctx["k"] if for_ctx else None
+        # ---- carried variables that stay at a constant distance from another one (idx/end pairs):
+        #      found by Houdini on the pairwise equalities that hold on entry, then eliminated
+        if for_ctx is not None and len(int_syms) > 1:
+            pairs = []
+            for i, (a, ia) in enumerate(int_syms):
+                for b, ib in int_syms[:i]:
+                    pairs.append((a, b, eq(Lin.atom(a) - Lin.atom(b), ia.l - ib.l)))
+            for _ in range(6):
+                I.quiet += 1
+                try:
+                    s0 = base.clone()
+                    s0.pc.extend(c for _, _, c in pairs)
+                    s0.pc.append(le(0, Lin.atom(k_atom)))
+                    s0.pc.append(lt(Lin.atom(k_atom), for_ctx["N"]))
+                    backs0 = self._run_body(body, s0, label, for_ctx)[0]
+                finally:
+                    I.quiet -= 1
+                keep = []
+                for a, b, c in pairs:
+                    good = bool(backs0)
+                    for sb in backs0:
+                        cur = current(sb)
+                        va, vb = cur.get(sym_name(a)), cur.get(sym_name(b))
+                        if not (isinstance(va, IntV) and isinstance(vb, IntV)):
+                            good = False
+                            break
+                        m = {a: va.l, b: vb.l}
+                        if not solver.entails_lit(sb.pc, (c[0], subst_deep(c[1], m))):
+                            good = False
+                            break
+                    if good:
+                        keep.append((a, b, c))
+                if len(keep) == len(pairs):
+                    break
+                pairs = keep
+            elim = {}
+            for a, b, c in pairs:
+                if a in elim or b in elim:
+                    continue
+                # a == b + (ia - ib)
+                ia = dict(int_syms)[a]
+                ib = dict(int_syms)[b]
+                elim[a] = Lin.atom(b) + (ia.l - ib.l)
+            if elim:
+                for key in keys:
+                    base.env[key] = self._subst_val(base.env[key], elim)
+                int_syms = [(a, i) for a, i in int_syms if a not in elim]
         # ---- trial run: discover strides
         closed = {}
         if for_ctx is not None:
@@ -233,6 +280,7 @@ class Loops:
                         closed[a] = ps
         # substitute closed forms
         if closed:
+            for_ctx["ps_forms"] = [cf[1] for cf in closed.values() if not isinstance(cf[1], int)]
             m = {}
             for a, cf in closed.items():
                 if isinstance(cf[1], int):
@@ -461,21 +509,83 @@ class Loops:
             return SliceV(v.base, subst_deep(v.start, m), subst_deep(v.end, m), v.is_str)
         return v
 
+    def _ps_split(self, s0, for_ctx):
+        """prefix-sum strides: PS(k+1) = PS(k) + F(e_k), PS(k+1) <= PS(N); F is defined by cases on the
+        element, so the state is partitioned by those cases (the body would split on them anyway)"""
+        forms = for_ctx.get("ps_forms") or []
+        states = [s0]
+        rests = []
+        K = Lin.atom(for_ctx["k"])
+        for form in forms:
+            pk, pk1, pn = form(K), form(K + 1), form(for_ctx["N"])
+            nxt = []
+            for s in states:
+                s.pc.append(le(pk1, pn))
+                s.pc.append(le(pk, pk1))
+                if len(form.cases) == 1 and not form.cases[0][0]:
+                    s.pc.append(eq(pk1, pk + form.cases[0][1]))
+                    nxt.append(s)
+                    continue
+                for cond, delta in form.cases:
+                    s1 = s.clone()
+                    s1.pc.extend(cond)
+                    s1.pc.append(eq(pk1, pk + delta))
+                    if solver.feasible(s1.pc):
+                        nxt.append(s1)
+                # paths on which the iteration leaves the loop early are taken from an unsplit copy
+                # (its back edges are discarded: the case states above cover them)
+                if not getattr(s, "_rest", False):
+                    r = s.clone()
+                    rests.append(r)
+            states = nxt
+        return states, rests
+
     def _run_body(self, body, s0, label, for_ctx):
         """returns (back-edge states, exits [(state, kind, value)])"""
         I = self.I
         backs, exits = [], []
         starts = [s0]
         if for_ctx is not None:
-            starts = for_ctx["bind"](s0)
-        for s in starts:
-            for s2, kind, v in I.ev(body, s):
-                if kind == "val":
-                    backs.append(s2)
-                elif kind == "cont" and (v[0] == label or for_ctx is not None and v[0] == for_ctx.get("label")):
-                    backs.append(s2)
-                else:
-                    exits.append((s2, kind, v))
+            starts = []
+            cases, rests = self._ps_split(s0, for_ctx)
+            for sx in cases:
+                starts.extend((x, False) for x in for_ctx["bind"](sx))
+            any_multi = any(len(f.cases) > 1 or f.cases[0][0] for f in (for_ctx.get("ps_forms") or []))
+            if any_multi:
+                for sx in rests[:1]:
+                    starts.extend((x, True) for x in for_ctx["bind"](sx))
+        else:
+            starts = [(s0, False)]
+        for s, rest_only in starts:
+            if not rest_only:
+                for s2, kind, v in I.ev(body, s):
+                    is_back = kind == "val" or (kind == "cont" and (v[0] == label or for_ctx is not None and v[0] == for_ctx.get("label")))
+                    if is_back:
+                        backs.append(s2)
+                    else:
+                        exits.append((s2, kind, v))
+                continue
+            # early-exit paths: found quietly, then re-run (recording obligations) with the exit's own
+            # conditions assumed up front so that only that path is followed
+            n0 = len(s.pc)
+            I.quiet += 1
+            try:
+                found = [(s2, kind, v) for s2, kind, v in I.ev(body, s.clone())
+                         if not (kind == "val" or (kind == "cont" and (v[0] == label or v[0] == for_ctx.get("label"))))]
+            finally:
+                I.quiet -= 1
+            seen_x = set()
+            for sx, kx, vx in found:
+                key = tuple(_lit_key(l) for l in sx.pc[n0:])
+                if key in seen_x:
+                    continue
+                seen_x.add(key)
+                s1 = s.clone()
+                s1.pc.extend(l for l in sx.pc[n0:] if l[0] in ("le", "eq", "ne", "b"))
+                for s2, kind, v in I.ev(body, s1):
+                    is_back = kind == "val" or (kind == "cont" and (v[0] == label or v[0] == for_ctx.get("label")))
+                    if not is_back:
+                        exits.append((s2, kind, v))
         return backs, exits
 
     def _rank(self, rep, backs, int_syms, invs, current, sym_name):
@@ -575,6 +685,12 @@ class Loops:
         if isinstance(v, RefV):
             return ("ref", str(v.key), v.path)
         return ("?", repr(v))
+
+    def seq_ident(self, seq):
+        """key of the underlying indexed sequence (enumerate/copied do not change which element is k-th)"""
+        while seq[0] in ("enumerate", "copied"):
+            seq = seq[1]
+        return self.seq_key(seq)
 
     def seq_key(self, seq):
         out = [seq[0]]
@@ -704,6 +820,12 @@ class Loops:
                 I.unmodelled_at(e, f"for loop over sequence without count {itv.seq!r}")
                 continue
             N = N - itv.pos
+            if solver.entails_lit(s.pc, le(N, 0)):
+                # no element: the body is not executed
+                if ref is not None:
+                    pass
+                outs.append((s, "val", UNIT))
+                continue
             kname = I.fresh("k")
             katom = ("k", kname)
             K = Lin.atom(katom)
@@ -715,13 +837,38 @@ class Loops:
                 for s1, v in self.elem_of(s0, seq, pos0 + K, e):
                     s1 = s1 if s1 is not s0 else s0.clone()
                     I.bind(s1, elem_pat, v)
-                    res.append(s1)
+                    res.extend(self.instantiate_forall(s1, seq, pos0 + K))
                 return res
 
             ctx = {"k": katom, "N": N, "bind": bind, "body": body, "label": loop.get("label"), "seq": seq, "ref": ref, "pos0": pos0}
             fake = {"k": "Loop", "label": loop.get("label"), "body": body, "sp": e["sp"], "t": e["t"]}
             outs.extend(self.loop(fake, s, for_ctx=ctx))
         return outs
+
+    def instantiate_forall(self, s, seq, idx):
+        """facts recorded by an earlier complete traversal of the same sequence (forall k. C1(e_k) | C2(e_k) ...)
+        instantiated at element idx; alternatives partition the state"""
+        sk = self.seq_ident(seq)
+        states = [s]
+        for l in list(s.pc):
+            if l[0] != "forall" or l[1] != sk:
+                continue
+            m = {l[2]: idx}
+            nxt = []
+            for st in states:
+                for conj in l[3]:
+                    inst = [_subst_lit(x, m) for x in conj]
+                    have = set(map(_lit_key, st.pc))
+                    s1 = st.clone()
+                    for x in inst:
+                        if _lit_key(x) not in have:
+                            s1.pc.append(x)
+                    if solver.unsat([x for x in s1.pc if x[0] == "b"]):
+                        continue
+                    if solver.feasible(s1.pc):
+                        nxt.append(s1)
+            states = nxt
+        return states
 
     def _for_exit(self, pre, base, backs, keys, closed, invs, int_syms, ctx, n_mem, e):
         """state after the iterator is exhausted"""
@@ -746,11 +893,12 @@ class Loops:
             conds = []
             for sb in backs:
                 new = [l for l in sb.pc[len(base.pc):] if l[0] in ("le", "eq", "ne") and self._mentions_elem_only(l, katom, int_syms)]
+                # facts about a sequence that belongs to element k (nested traversal)
+                new += [l for l in sb.pc[len(base.pc):] if l[0] == "forall" and katom in _seq_atoms(l[1])]
+                new += [l for l in sb.pc[len(base.pc):] if l[0] == "b" and isinstance(l[1], tuple) and katom in _seq_atoms(l[1])]
                 conds.append(new)
-            if conds and all(conds) and not I.quiet:
-                s.pc.append(("forall", self.seq_key(ctx["seq"]), katom, conds))
-            elif conds and all(conds):
-                s.pc.append(("forall", self.seq_key(ctx["seq"]), katom, conds))
+            if conds and all(conds):
+                s.pc.append(("forall", self.seq_ident(ctx["seq"]), katom, conds))
             # writes: generalise each body write over k
             per_back = []
             for sb in backs:
@@ -758,21 +906,34 @@ class Loops:
                 for b, wl in sb.mem.items():
                     ws[b] = wl[n_mem.get(b, 0):]
                 per_back.append((sb, ws))
-            if len(per_back) == 1:
+            # identical effects on several paths (paths that only differ in facts) collapse to one
+            def wkey(ws):
+                return repr(sorted((repr(b), [repr(w) for w in wl]) for b, wl in ws.items() if wl))
+
+            groups = {}
+            for sb, ws in per_back:
+                groups.setdefault(wkey(ws), []).append((sb, ws))
+            bases = set()
+            for _, ws in per_back:
+                bases |= set(b for b, wl in ws.items() if wl)
+            simple = len(groups) == 1 and all(w.q is None and w.kind != "loop" for _, ws in per_back for wl in ws.values() for w in wl)
+            if simple:
                 sb, ws = per_back[0]
                 for b, wl in ws.items():
                     for w in wl:
-                        if w.q is None:
-                            I.write(s, b, Write(w.start, w.end, w.kind, w.payload, q=(katom, N), span=w.span, fn=w.fn))
-                        else:
-                            I.write(s, b, Write(w.start, w.end, "opaque", ("nested", w), q=(katom, N), span=w.span, fn=w.fn))
+                        I.write(s, b, Write(w.start, w.end, w.kind, w.payload, q=(katom, N), span=w.span, fn=w.fn))
             else:
-                # several body paths: conservative per-base opaque region when every path writes the same range
-                bases = set()
-                for _, ws in per_back:
-                    bases |= set(b for b, wl in ws.items() if wl)
+                # a structured node: for every k in [0,N), on the path whose condition holds of element k, these writes
                 for b in bases:
-                    I.write(s, b, Write(lin(0), lin(0), "opaque", ("multi-path loop body", [ws.get(b, ()) for _, ws in per_back]), q=(katom, N), span=I.span(e), fn=I.stack[-1] if I.stack else None))
+                    paths = []
+                    for key, members in groups.items():
+                        sb, ws = members[0]
+                        if len(groups) == 1:
+                            cond = []
+                        else:
+                            cond = [l for l in sb.pc[len(base.pc):] if l[0] in ("le", "eq", "ne", "b")]
+                        paths.append((cond, list(ws.get(b, ())), list(sb.pc)))
+                    I.write(s, b, Write(lin(0), lin(0), "loop", paths, q=(katom, N), span=I.span(e), fn=I.stack[-1] if I.stack else None))
             # pushes
             for sb in backs:
                 for seqk, recs in sb.colls.items():
@@ -791,7 +952,16 @@ class Loops:
         hav = {a for a, _ in int_syms}
         if ats & hav:
             return False
+        if any(a[0] == "ps" for a in ats):
+            return False
         return any(a[0] in ("elem", "byte") or (a[0] == "len" and isinstance(a[1], tuple)) for a in ats)
+
+    def _elem_lit(self, l, katom):
+        """a literal about the k-th element (not merely about the index range)"""
+        ats = atoms_deep(l[1])
+        if katom not in ats:
+            return False
+        return any(a[0] in ("elem", "byte", "ps") or (a[0] in ("len", "cnt") and isinstance(a[1], tuple)) for a in ats)
 
     def _try_prefix_sum(self, a, init, backs, current, sym_name, ctx, base):
         """stride depends on the element only: carried = init + PS(seq, F, k)"""
@@ -807,7 +977,7 @@ class Loops:
             for x in ats:
                 if x[0] == "sym" and "@" in x[1]:
                     return None
-            cond = [l for l in sb.pc[len(base.pc):] if l[0] in ("le", "eq", "ne")]
+            cond = [l for l in sb.pc[len(base.pc):] if l[0] in ("le", "eq", "ne") and self._elem_lit(l, katom)]
             cases.append((cond, delta))
         ph = {katom: Lin.atom(("k", "*"))}
         canon = []
@@ -818,15 +988,53 @@ class Loops:
         if len({c[1] for c in canon}) == 1:
             canon = [((), canon[0][1])]
             cases = [([], cases[0][1])]
-        fid = "F" + str(abs(hash(tuple(sorted(canon)))) % 10**8)
-        self.psfuns[fid] = {"k": katom, "cases": cases, "seq": self.seq_key(ctx["seq"])}
-        seqk = self.seq_key(ctx["seq"])
+        import hashlib
+        fid = "F" + hashlib.sha1(repr(tuple(sorted(canon))).encode()).hexdigest()[:8]
+        # the same function of the element as an earlier traversal of this sequence?  (pointwise equality,
+        # decided on the back-edge states, which carry the element facts)
+        seqk0 = self.seq_ident(ctx["seq"])
+        for ofid, of in self.psfuns.items():
+            if ofid == fid:
+                continue
+            # same sequence, possibly of a different element of an enclosing traversal (index atoms renamed)
+            ko, kn = _k_order(of["seq"]), _k_order(seqk0)
+            if len(ko) != len(kn):
+                continue
+            ren = {a: Lin.atom(b) for a, b in zip(ko, kn)}
+            from .lin import _subst_seq
+            if (_subst_seq(of["seq"], ren) if ren else of["seq"]) != seqk0:
+                continue
+            m = dict(ren)
+            m[of["k"]] = Lin.atom(katom)
+            same = True
+            for sb in backs:
+                nv = current(sb).get(sym_name(a))
+                delta = nv.l - Lin.atom(a)
+                for ocond, odelta in of["cases"]:
+                    oc = [(l[0], subst_deep(l[1], m)) for l in ocond]
+                    if not solver.feasible(sb.pc, oc):
+                        continue
+                    if not solver.entails(sb.pc + oc, flit(eq(delta, subst_deep(odelta, m)))):
+                        same = False
+                        break
+                if not same:
+                    break
+            if same:
+                fid = ofid
+                cases = [([(l[0], subst_deep(l[1], m)) for l in oc_], subst_deep(od_, m)) for oc_, od_ in of["cases"]]
+                break
+        if fid not in self.psfuns:
+            self.psfuns[fid] = {"k": katom, "cases": cases, "seq": self.seq_ident(ctx["seq"])}
+        seqk = self.seq_ident(ctx["seq"])
 
         def form(K):
             if K.is_const() and K.c == 0:
                 return lin(0)
             return Lin.atom(("ps", seqk, fid, K.key()))
 
+        form.cases = cases
+        form.fid = fid
+        form.seqk = seqk
         return (init.l, form)
 
     # ------------------------------------------------------------------ explicit next / fold / drain
@@ -922,6 +1130,43 @@ class Loops:
                 out.pc.append(le(res.l, Lin.atom(("len", tile_base))))
                 return [(out, "val", res)]
         return [(st, "val", res)]
+
+
+def _k_order(seq):
+    """index atoms ('k', name) in order of first appearance inside a (nested) sequence key"""
+    out = []
+
+    def rec(x):
+        if isinstance(x, tuple):
+            if len(x) == 2 and x[0] == "k" and isinstance(x[1], str):
+                if x not in out:
+                    out.append(x)
+                return
+            for y in x:
+                rec(y)
+
+    rec(seq)
+    return out
+
+
+def _seq_atoms(seq):
+    """atoms occurring in the Lin keys nested in a sequence key"""
+    from .lin import _seq_lins
+    out = set()
+    for k in _seq_lins(seq):
+        atoms_deep(Lin.from_key(k), out)
+    return out
+
+
+def _subst_lit(x, m):
+    from .lin import _subst_seq
+    if x[0] in ("le", "eq", "ne"):
+        return (x[0], subst_deep(x[1], m))
+    if x[0] == "b" and isinstance(x[1], tuple):
+        return ("b", _subst_seq(x[1], m), x[2])
+    if x[0] == "forall":
+        return ("forall", _subst_seq(x[1], m), x[2], [[_subst_lit(y, m) for y in conj] for conj in x[3]])
+    return x
 
 
 def _lit_key(l):
